@@ -395,7 +395,7 @@ def kept_set(ip, ret):
 
 def rule(chk, repo, rid):
     chk.rule(rid, 'truncation rule, clause by clause: the quantity compared with the tolerance is a relative weight (scale '
-                  'invariant, quadratic in the singular values), accumulated in ascending order of the values themselves '
+                  'invariant, quadratic in the singular values, summing to one over all values), accumulated in ascending order of the values themselves '
                   '(across charge sectors), compared strictly (`> tol`: maximal discarded set, zeros dropped at tol = 0); '
                   'every caller hands over the singular values as they come out of the SVD (power 1)')
     fi = repo.func('bond_ops.retained_bond_indices')
